@@ -29,6 +29,8 @@ theorem iipEdge_err {w w' : W} {ip ipc : Nat} {e : Err} (h : iipEdge w ip ipc = 
 theorem takeFundPayment_err {w w' : W} {amount : Nat} {asset : Asset} {pct : Dec} {fund : Addr} {e : Err}
     (h : takeFundPayment w amount asset pct fund = .error (e, w')) : w' = w := by
   unfold takeFundPayment at h
+  rcases bind_err h with h | ⟨_, _, h⟩
+  · exact liftM_err h
   rcases bind_err h with h | ⟨take, _, h⟩
   · exact liftM_err h
   · rcases bind_err h with h | ⟨bank, _, h⟩
